@@ -306,9 +306,16 @@ class C06conc(ConcProp):
     # ---------------------------------------------------------------- proofs of this part
     def check_pinned(self):
         """full re-check of Proofs/C06ConcPinned.v (and what it needs); its Print Assumptions output against the allowlist"""
-        vo = os.path.join(COQ, PINNED + ".vo")
-        if os.path.exists(vo): os.remove(vo)      # force a re-check of the pinned file so that its Print Assumptions output is seen
+        # nothing shared is deleted: the pinned file is re-checked with a private output file (as pvlib.check_props does)
         ok, out = coq_make(["Spec/SpecC06Conc.vo", PINNED + ".vo"])
+        if ok:
+            import shutil
+            outdir = os.path.join(BUILD, "props", "C06conc-%d" % os.getpid()); os.makedirs(outdir, exist_ok=True)
+            rc, o2 = sh(["timeout", "900", "coqc", "-q", "-w", "-notation-overridden,-deprecated-syntactic-definition,-deprecated-hint-rewrite-without-locality,-deprecated-instance-without-locality,-ambiguous-paths",
+                         "-Q", COQ, "PV", "-o", os.path.join(outdir, os.path.basename(PINNED) + ".vo"), os.path.join(COQ, PINNED + ".v")])
+            out += "\n" + o2
+            ok = (rc == 0)
+            shutil.rmtree(outdir, ignore_errors=True)
         text = open(os.path.join(COQ, PINNED + ".v")).read()
         theorems = re.findall(r"^\s*(?:Theorem|Lemma|Corollary|Example)\s+(\w+)", text, re.M)
         axioms = set()
